@@ -121,6 +121,9 @@ Qed.
 Lemma same_wait w d intr : R w (snd (wait w d intr)).
 Proof. apply same_advance. Qed.
 
+Lemma same_pause w d : R w (pause w d).
+Proof. unfold pause. destruct (0 <? d); [apply same_wait|apply same_refl]. Qed.
+
 (* ---- layers that never touch the automaton of [pos] ---- *)
 Definition quiet (l : layer) : Prop := forall c w, R w (snd (l c w)).
 
@@ -203,9 +206,12 @@ Lemma fallback_layer_quiet q cfg inner : N KPolFailure q -> N KPolSuccess q -> q
 Proof.
   intros Hpf Hps Hi c w. unfold fallback_layer. pose proof (Hi c w) as S1. destruct (inner c w) as [r w1]. cbn [snd] in S1.
   destruct (is_failure (fb_fpol cfg) (pr_out r)).
-  - set (w2 := ev_with_result w1 c KPolFailure q _). assert (S2 : R w w2) by (eapply same_trans; [exact S1|apply same_ev; exact Hpf]).
+  - set (w2 := pause (ev_with_result w1 c KPolFailure q _) _).
+    assert (S2 : R w w2) by (eapply same_trans; [exact S1|]; eapply same_trans; [apply same_ev; exact Hpf|apply same_pause]).
     cbn [pr_succ with_failure]. destruct (is_canceled w2 c); [exact S2|].
-    cbn [snd]. eapply same_trans; [exact S2|apply same_emit; apply N_plain; reflexivity].
+    set (w3 := pause w2 _). assert (S3 : R w w3) by (eapply same_trans; [exact S2|apply same_pause]).
+    destruct (is_canceled w3 c); [exact S3|].
+    cbn [snd]. eapply same_trans; [exact S3|apply same_emit; apply N_plain; reflexivity].
   - cbn [pr_succ with_done]. cbn [snd]. eapply same_trans; [exact S1|apply same_ev; exact Hps].
 Qed.
 
@@ -270,7 +276,8 @@ Qed.
 Lemma same_retry_on_failure q cfg c r w : N KPolFailure q -> N KAbort q -> N KRetriesExceeded q -> R w (snd (retry_on_failure cfg q c r w)).
 Proof.
   intros Hpf Hab Hex. unfold retry_on_failure.
-  set (w0 := ev_with_result w c KPolFailure q r). assert (S0 : R w w0) by (apply same_ev; exact Hpf).
+  set (w0 := pause (ev_with_result w c KPolFailure q r) (r_lsn_dur cfg)).
+  assert (S0 : R w w0) by (eapply same_trans; [apply same_ev; exact Hpf|apply same_pause]).
   match goal with |- context [put_rstate w0 q ?rs] => set (w1 := put_rstate w0 q rs) end.
   assert (S1 : R w w1) by (eapply same_trans; [exact S0|apply same_frame; reflexivity]).
   set (ab := is_abortable (r_abort cfg) (pr_out r)).
